@@ -418,6 +418,29 @@ theorem neighbour_subnets_isolated (H : Hash) (store : Nat → Option Entry) (qi
   refine ⟨hfam, hle, ?_⟩
   rw [← hX, ha, hfam]
 
+/-- **Two cache-missing clients share a flight only if they share the forwarded
+subnet.** Equal dedup keys mean: same question, same CD, and either neither
+request has a client scope longer than 0 bits, or both have the same family, the same
+length and the same network. -/
+theorem dedup_shares_only_same_subnet (qa qb : Nat) (cda cdb : Bool) (csa csb : Option Prefix)
+    (h : dedupKey qa cda csa = dedupKey qb cdb csb) :
+    qa = qb ∧ cda = cdb ∧
+    (∀ a, csa = some a → 0 < a.bits →
+      ∃ b, csb = some b ∧ b.fam = a.fam ∧ b.bits = a.bits ∧
+        maskTo b.fam.width b.bits b.addr = maskTo a.fam.width a.bits a.addr) := by
+  simp only [dedupKey, Prod.mk.injEq] at h
+  refine ⟨h.1, h.2.1, ?_⟩
+  intro a ha hpos
+  have hn : normScope csb = some a.masked := by
+    rw [← h.2.2, ha]
+    simp [normScope, Nat.ne_of_gt hpos]
+  cases csb with
+  | none => simp [normScope] at hn
+  | some b =>
+    obtain ⟨_, hb⟩ := normScope_some hn
+    simp only [Prefix.masked, Prefix.mk.injEq] at hb
+    exact ⟨b, rfl, hb.1.symm, hb.2.2.symm, hb.2.1.symm⟩
+
 /-- a request for which no client scope was derived (policy off or invalid,
 client outside the allowed networks, no usable subnet option) never receives
 a scoped entry. -/
@@ -951,6 +974,10 @@ example : serveLookup demoH (runCache demoH (some demoPol) 300 demoOps).get 7 fa
 -- the neighbour across the /19 boundary does not get X's entry; a host inside the same /19 does
 example : serveLookup demoH demoStore 7 false (some ⟨.v4, 0x0a01f000, 20⟩) = some demoEntry ∧
     maskTo 32 19 0x0a01f000 = maskTo 32 19 0x0a01e000 := by decide
+-- neighbours across the /24 boundary get flights of their own; two hosts of one /24 share; /0 folds into the unscoped key
+example : dedupKey 7 false (some ⟨.v4, 0x0a010200, 24⟩) ≠ dedupKey 7 false (some ⟨.v4, 0x0a010300, 24⟩) ∧
+    dedupKey 7 false (some ⟨.v4, 0x0a010200, 24⟩) = dedupKey 7 false (some ⟨.v4, 0x0a010200, 24⟩) ∧
+    dedupKey 7 false (some ⟨.v4, 0, 0⟩) = dedupKey 7 false none := by decide
 -- an ECS client whose option was stripped by policy still bypasses, two chases deep
 example : consultsCut (descend (rootView true false false false) [(false, false, false), (false, false, false)]) = false := by decide
 example : consultsCut (rootView false false false false) = true := by decide
